@@ -265,7 +265,7 @@ def expm(mat):
     xp = common.get_array_module(mat)
     matnorm = xp.linalg.norm(mat)
     if xp.isclose(matnorm, 0):
-        return xp.eye(mat.shape[-1]).reshape(mat.shape)
+        return xp.broadcast_to(xp.eye(mat.shape[-1]), mat.shape).copy()
     elif xp.allclose(mat, tra(mat).conj()):
         # hermician/symmetric
         evals, evecs = xp.linalg.eigh(mat / matnorm)
